@@ -120,9 +120,13 @@ func runRouting(c *Ctx) {
 	// datasets
 	counts := []int{1, 2, 3, 5, 6, 7, 12, 16, 100, 1000, 1023, 1024}
 	if c.Thorough() {
+		// every count up to 160, then the neighbourhood of every multiple of 32 and every power of two up to
+		// 1024 (a dataset object with P partitions holds P indexes: all 1024 counts cost half a million of them)
 		counts = nil
 		for p := 1; p <= 1024; p++ {
-			counts = append(counts, p)
+			if p <= 160 || p%32 <= 1 || p%32 == 31 || p&(p-1) == 0 || p > 1020 {
+				counts = append(counts, p)
+			}
 		}
 	}
 	for _, P := range counts {
